@@ -29,7 +29,8 @@ def rule(rid, props, floor=1, title="", configs=("default",)):
 
 
 class Violation:
-    def __init__(self, rid, key, msg, loc="", details=None):
+    def __init__(self, rid, key, msg, loc="", details=None, props=None):
+        self.props = props
         self.rid = rid
         self.key = "%s:%s" % (rid, key)
         self.msg = msg
@@ -63,14 +64,15 @@ class RuleResult:
         if sample is not None and len(self.samples) < 4:
             self.samples.append(sample)
 
-    def violate(self, key, msg, loc="", details=None):
-        self.violations.append(Violation(self.rid, key, msg, loc, details))
+    def violate(self, key, msg, loc="", details=None, props=None):
+        """props: the properties (a subset of the rule's) this particular obligation is a clause of."""
+        self.violations.append(Violation(self.rid, key, msg, loc, details, props))
 
-    def check(self, ok, key, msg, loc="", details=None, sample=None):
+    def check(self, ok, key, msg, loc="", details=None, sample=None, props=None):
         """One obligation that is either discharged or a violation."""
         self.ob(ok, key=key, sample=sample if sample is not None else {"obligation": key, "holds": bool(ok), "at": loc})
         if not ok:
-            self.violate(key, msg, loc, details)
+            self.violate(key, msg, loc, details, props)
         return ok
 
 
